@@ -4,7 +4,7 @@
    j <= k, all are additive and self-adjoint.  That the einsum code realises such A_k, B_k is measured by the check (DESIGN.md).
    Only theorem statements closed by `exact`, each followed by Print Assumptions. *)
 From Coq Require Import List Arith.
-From TT Require Import RingSig SumN Mat Core ProjP ProjAlgP ProjFullP FrobP OrthP.
+From TT Require Import RingSig SumN Mat Core ProjP ProjAlgP ProjFullP FrobP OrthP Tangent TangentP.
 Import ListNotations.
 
 (* P x = x: the base point is fixed by the projection onto its own tangent space *)
@@ -91,6 +91,21 @@ Theorem C16_projectors_commute (na nc : list nat) (KA KB : list nat -> list nat 
 Proof. exact (kernels_commute na nc KA KB f a c). Qed.
 End Kernel.
 
+(* ---- the code itself: Model/Tangent.v is the interface recursion of riemannian_projection and the block cores of _delta2cores (tied to
+   torchtt/manifold.py exactly on every run, with the two QR sweeps replaced by given cores).  (1) The block train represents, entry by entry,
+   the sum over the position k of the train l_0 .. l_{k-1} delta_k r_{k+1} .. r_{d-1} - every order >= 2, all mode sizes, every rank profile
+   that torch.cat accepts (tcompat).  (2) Every delta but the last lies in the tangent gauge: it is orthogonal to the orthonormal left
+   unfolding of l_k, whatever z and the right interface are. ---- *)
+Section Tangent.
+Context {R : Type} {RO : RingOps R} {RL : RingLaws R}.
+Theorem C16_tangent_entry_sum (l r s : tt R) idx : tcompat l r s -> length idx = length l -> 2 <= length l ->
+  entry (tangent l r s) idx = sum_n (length l) (fun k => tterm l r s idx k 0 0).
+Proof. exact (tangent_entry_sum l r s idx). Qed.
+Theorem C16_delta_gauge (L : mat R) (l z : core3 R) (Rm : mat R) a p : orthT l -> nn z = nn l -> a < r1 l ->
+  sum_n (r0 l) (fun r => sum_n (nn l) (fun i => rmul (e3 l r i a) (e3 (delta_mid L l z Rm) r i p))) = rO.
+Proof. exact (delta_mid_gauge L l z Rm a p). Qed.
+End Tangent.
+
 Print Assumptions C16_proj_fixes.
 Print Assumptions C16_proj_additive.
 Print Assumptions C16_tangent_ranks_le.
@@ -102,3 +117,5 @@ Print Assumptions C16_left_projector_idempotent.
 Print Assumptions C16_left_projector_fixes.
 Print Assumptions C16_left_projector_nested.
 Print Assumptions C16_projectors_commute.
+Print Assumptions C16_tangent_entry_sum.
+Print Assumptions C16_delta_gauge.
